@@ -159,3 +159,96 @@ def judge_in_chunks(work, rep, trace, nproc, name, chunk=60000):
 
 
 CHECKS["C05"] = c05
+
+
+# ----------------------------------------------------------------------------- C07
+
+IFACE = {"WriteOpsFail": "WriteOps", "GetLatestFail": "GetLatest", "SetFail": "Set", "CommitFail": "Set", "CloseFail": "Close"}
+DRIVER = {"WriteOpsFail": "begin", "GetLatestFail": "query", "SetFail": "exec", "CommitFail": "commit", "CloseFail": "rollback"}
+TAIL = [{"op": "update", "log": "l1", "req": {"auth": "good", "old": 0, "b": 1, "n": 2, "extra": 0, "stale": 0, "ext": 0, "pf": {"k": "empty"}}},   # what a wrongly reset witness would accept
+        {"op": "probe", "log": "l1", "n": 2}, {"op": "probe", "log": "l1", "n": 3}, {"op": "get", "log": "l1"}, {"op": "probe", "log": "l1", "n": 3}]
+
+
+def fault_steps(prog, sched, level):
+    """program + TLC schedule with ...Fail actions -> seq-driver steps carrying the failures of each operation"""
+    faults = [[] for _ in prog]
+    k = 0
+    for p, name in sched:
+        if k >= len(prog):
+            break
+        if name.endswith("Fail"):
+            faults[k].append((IFACE if level == "iface" else DRIVER)[name])
+        if name in ("Close", "CloseFail", "WriteOpsFail") or (name == "GetLatest" and prog[k]["kind"] == "read"):
+            k += 1
+    steps = []
+    for op, fs in zip(prog, faults):
+        if op["kind"] == "read":
+            steps.append({"op": "get", "log": op["log"]})
+            continue
+        st = {"op": "update", "log": op["log"], "req": op["req"]}
+        if fs:
+            st["faults" if level == "iface" else "dfaults"] = fs
+        steps.append(st)
+    return steps, sum(len(f) for f in faults)
+
+
+def c07(work, tier, seed, replay):
+    import seqfam
+    rep = Report("C07", tier, seed, "fault_enumeration")
+    build_driver()
+    progs = scenario_programs(work)
+    maxf = 1 if tier == "quick" else 2
+    plans = []   # (store kind for the driver, level, runs)
+    runs_by = {("inmem", "iface"): [], ("sqlfault", "iface"): [], ("sqlfault", "driver"): []}
+    nplace = 0
+    for scen, db in HIST.items():
+        for store, ds in (("InMem", False), ("Sql1", True)):
+            c = ops_consts(scen, db, store, faults=maxf, driver_steps=ds)
+            ops_model_check(work, rep, scen + "+faults", c)
+            sch = ops_list(work, scen, c)
+            for j, s in enumerate(sch):
+                levels = ["iface"] if store == "InMem" else ["iface", "driver"]
+                for lv in levels:
+                    steps, nf = fault_steps(progs[scen][0], s["sched"], lv)
+                    pre = seqfam.tofu_steps(db0_of(db), 2) if db == "s1" else []
+                    pre = [x for x in pre if x["log"] == "l1"]
+                    runs_by[("inmem" if store == "InMem" else "sqlfault", lv)].append(
+                        {"id": "%s-%s-%d" % (scen, lv, j), "steps": pre + steps + TAIL})
+                    nplace += 1 if nf else 0
+            rep.cov.setdefault("fault_behaviours", {})["%s/%s" % (scen, store)] = len(sch)
+    jc = seqfam.consts(Logs={"l1", "l2"}, MaxSize=3, NBranch=2, ForkAt=Sub("Fork_1"))
+    all_events = []
+    for (store, lv), runs in runs_by.items():
+        if not runs:
+            continue
+        rp, tp = work.path("f-%s-%s.jsonl" % (store, lv)), work.path("f-%s-%s.ndjson" % (store, lv))
+        write_runs(rp, OPS_PARAMS, runs)
+        o, dt = run_driver(["seq", "-in", rp, "-out", tp, "-store", store, "-embed", "id", "-seed", str(seed), "-workers", str(NCPU), "-dir", work.sub("db"), "-faults"])
+        rep.notes.append("%s/%s: %s" % (store, lv, o.strip()))
+        events = read_ndjson(tp)
+        fails = seqfam.judge(work, rep, jc, tp, name="judge-%s-%s" % (store, lv))
+        seqfam.settle(rep, "C07", fails, events, jc, extra_replay={"store": store, "level": lv})
+        all_events += events
+        rep.cov["traces_validated_against_impl"] += len(runs)
+    ups = [e for e in all_events if e.get("e") == "update"]
+    fired = [e for e in ups if e.get("fired")]
+    rep.cov["evaluations"] = len(ups)
+    rep.cov["distinct_nontrivial"] = len({json.dumps([e["run"].split("-")[0], e["k"], e["fired"], e["v"]]) for e in fired})
+    rep.cov["fault_placements_with_a_failure"] = nplace
+    rep.cov["steps_where_a_failure_fired"] = len(fired)
+    rep.cov["rule"] = ("TLC lists every behaviour of WitnessOps for the single-process histories (first use; first use, growth; first use, refresh; first use, refused fork, growth ...) with up to %d "
+                       "storage failures at any call (open-for-write, read latest with a non-NotFound error, write, commit, close); each is executed at interface level (wrapping LogStatePersistence) "
+                       "on the in-memory store and on file-backed SQLite, and at driver level (wrapping database/sql driver: begin, query, exec, commit, rollback) on SQLite with one connection, "
+                       "followed by fault-free operation: the forged first-use probe, honest probes, a read; judged by the C07 monitors of Trace_Witness; "
+                       "distinct = distinct (history, step, failures fired, verdict)" % maxf)
+    rep.cov["exhaustive"] = True
+    for e in fired[:3]:
+        rep.sample(e)
+    rep.assumptions += ["a storage that applies a write and then reports failure is lying and is not counted against the witness",
+                        "the wrapping persistence / driver delegate transparently; leak evidence is the wrapper's begun-minus-finished count and db.Stats().InUse"]
+    if rep.cov["distinct_nontrivial"] < 2:
+        raise Inconclusive("no injected failure fired")
+    return rep.finish()
+
+
+CHECKS["C07"] = c07
